@@ -8,7 +8,7 @@ WT=/tmp/mut_$ID; OUT=/tmp/mut_${ID}_out
 echo "== diff stat"; git -C $WT diff --stat
 git -C $WT diff > $OUT/patch.confirmed.diff
 echo "== demo WITH change"; (cd $OUT && PYTHONPATH=$WT/src timeout 900 /venv/bin/python demo.py > $OUT/demo_with.log 2>&1; echo "exit=$?")
-echo "== demo WITHOUT change (/repo/src)"; (cd $OUT && PYTHONPATH=/repo/src timeout 900 /venv/bin/python demo.py > $OUT/demo_without.log 2>&1; echo "exit=$?")
+echo "== demo WITHOUT change (pristine worktree /tmp/genjax_base)"; (cd $OUT && PYTHONPATH=/tmp/genjax_base/src timeout 900 /venv/bin/python demo.py > $OUT/demo_without.log 2>&1; echo "exit=$?")
 echo "== upstream suite WITH change"
 (cd $WT && PYTHONPATH=$WT/src timeout 3000 /venv/bin/python -m pytest -q -p no:cacheprovider --no-cov -n $N tests/ 2>&1 | tail -5)
 echo "== done"
